@@ -127,9 +127,13 @@ pub fn run_history_rendering_between(texts: &[String], kinds: &[ReaderKind], cfg
             let _ = root.to_serde_struct(&opts("", "text_content", "Debug", i % 2 == 0));
         };
         if threads {
+            #[cfg(not(feature = "element_not_sync"))]
             std::thread::scope(|s| {
                 let _ = std::thread::Builder::new().stack_size(32 << 20).spawn_scoped(s, || work(root)).expect("spawn").join();
             });
+            // Element<String> is not Sync on this tree: render here instead of through a shared reference
+            #[cfg(feature = "element_not_sync")]
+            work(root);
         } else {
             work(root);
         }
